@@ -325,6 +325,18 @@ class USys:
             if hdr != exp_hdr:
                 self.viol(st, op, "header-changed", f"headers {hdr!r} != {exp_hdr!r}")
                 ok = False
+            # the other read accessors must tell the same story
+            try:
+                its = dict(h.items())
+                vals = sorted(h.values())
+                sub = {k: h[k] for k in st.model}
+            except Exception as e:
+                self.viol(st, op, "items-raised", f"items()/values()/h[k] raised {exc_name(e)}")
+                ok = False
+            else:
+                if its != st.model or vals != sorted(st.model.values()) or sub != st.model:
+                    self.viol(st, op, "items-mismatch", "items()/values()/h[k] disagree with the successful puts")
+                    ok = False
         # the file itself: parse with the harness's own reader
         if st.exists:
             recs, hdr, clean = parse_ukv(self.file_bytes_flushed(st))
@@ -705,6 +717,19 @@ class CSys:
                     if k in c:
                         self.viol(st, op, "contains-absent", "`k in c` is true for a never-put key")
                         ok = False
+            if ok:
+                try:
+                    its = dict(c.items())
+                    itr = set(iter(c))
+                    vals = sorted(c.values())
+                    n = c.n_items
+                except Exception as e:
+                    self.viol(st, op, "items-raised", f"items()/values()/iter raised {exc_name(e)}")
+                    ok = False
+                else:
+                    if its != exp or itr != set(exp) or vals != sorted(exp.values()) or n != len(exp):
+                        self.viol(st, op, "items-mismatch", "items()/values()/iter()/n_items disagree with the successful puts")
+                        ok = False
         # idle moment: nobody inside a session -> the file holds exactly the model
         if not any(st.sess.values()) and st.exists:
             fb = self.file_bytes()
@@ -775,28 +800,28 @@ def run(ctx):
         return lst[r:] + lst[:r]
 
     # ---- layer U -------------------------------------------------------------------------------
-    dU_full = 6 if thorough else 5
+    dU_full = 7 if thorough else 6
     mkU = lambda c: USys(c, nhandles=2, keys=rot(KEYNAMES), vals=vals, label="U2")
     seqx.pbfs(ctx, mkU, [[]], dU_full)
     ctx.bound["U_2handles_full_alphabet_depth"] = dU_full
     # reduced alphabet, one level deeper, three handles in the thorough tier
     red_keys = ["a", "k256", "empty"]
     red_vals = {"e": b"", "x": b"x"}
-    dU_red = 7 if thorough else 6
+    dU_red = 8 if thorough else 7
     mkU3 = lambda c: USys(c, nhandles=3 if thorough else 2, keys=red_keys, vals=red_vals, label="U3")
     seqx.pbfs(ctx, mkU3, [[]], dU_red)
     ctx.bound["U_reduced_alphabet_depth"] = dU_red
     ctx.bound["U_reduced_alphabet_handles"] = 3 if thorough else 2
 
     # ---- layer C -------------------------------------------------------------------------------
-    dC = 6 if thorough else 5
+    dC = 7 if thorough else 6
     ckeys = rot(["a", "b", "empty", "k256", "u2", "u1"]) if not thorough else rot(list(CKEYS))
     cvals = {"e": b"", "x": b"x", "yy": b"yy"} if not thorough else vals
     mkC = lambda c: CSys(c, nhandles=2, keys=ckeys, vals=cvals, label="C2")
     seqx.pbfs(ctx, mkC, [[]], dC)
     ctx.bound["C_2handles_depth"] = dC
     # deeper with a reduced alphabet: stale handles need new+new+enter+set+exit+enter(other)+...
-    dC2 = 8 if thorough else 7
+    dC2 = 9 if thorough else 8
     mkC2 = lambda c: CSys(c, nhandles=3 if thorough else 2, keys=["a", "k256"], vals={"x": b"x"}, bufs=["dflt", "large"], label="C3")
     seqx.pbfs(ctx, mkC2, [[]], dC2)
     ctx.bound["C_reduced_alphabet_depth"] = dC2
